@@ -161,7 +161,9 @@ impl<'a> LoweringManager<'a> {
     // For closure functions (first param named "_this"), get the explicit type name.
     // This is needed for call_indirect to work correctly - the function's type must
     // match the type used in call_indirect exactly.
-    let type_name = if function.parameters.first() == Some(&PStr::UNDERSCORE_THIS) {
+    let type_name = if function.parameters.first().is_some_and(|p| {
+      super::mir_tail_recursion_rewrite::is_context_parameter(instance.type_cx.heap, *p)
+    }) {
       Some(instance.type_cx.lower_function_type(&function.type_))
     } else {
       None
@@ -430,6 +432,18 @@ impl<'a> LoweringManager<'a> {
           .map(|it| {
             let t = self.type_cx.lower(&it.type_);
             let e = self.lower_expr(&it.initial_value);
+            // A type-erased parameter (closure context) that seeds a typed loop variable
+            // needs the same downcast as any other typed use of it.
+            let seeded_from_erased_parameter = matches!(
+              &it.initial_value,
+              lir::Expression::Variable(n, _)
+                if matches!(self.local_variables.get(n), Some(wasm::Type::Eq))
+            );
+            let e = if seeded_from_erased_parameter && matches!(t, wasm::Type::Reference(_)) {
+              wasm::InlineInstruction::Cast { pointer_type: it.type_.clone(), value: Box::new(e) }
+            } else {
+              e
+            };
             wasm::Instruction::Inline(self.set(it.name, t, e))
           })
           .collect_vec();
